@@ -323,6 +323,10 @@ func (g *qgen) valueFor(def jmap, depth int) typedVal {
 			tv := typedVal{K: "slice", E: e}
 			for i := 0; i < n; i++ {
 				if e == "iface" {
+					if g.rng.Intn(10) == 0 {
+						tv.L = append(tv.L, typedVal{K: "nil"})
+						continue
+					}
 					tv.L = append(tv.L, g.scalar(g.pick([]string{"string", "int64", "float64", "bool"})))
 				} else {
 					tv.L = append(tv.L, g.scalar(e))
@@ -333,6 +337,9 @@ func (g *qgen) valueFor(def jmap, depth int) typedVal {
 		var elems []typedVal
 		for i := 0; i < n; i++ {
 			elems = append(elems, g.valueFor(items, depth-1))
+		}
+		if n > 0 && g.rng.Intn(8) == 0 {
+			elems[g.rng.Intn(n)] = typedVal{K: "nil"} // a null element (JSON [null]): kind Invalid inside the items validator
 		}
 		// a typed slice when all elements share a type, otherwise []interface{}
 		e := "iface"
